@@ -622,3 +622,86 @@ func (p *Program) callsWellFormedness(fn *ssa.Function, depth int) bool {
 	}
 	return false
 }
+
+// R-INFER-THROUGH-NAMES (C16): a reference to a named type gets its mode by inferring the
+// definition, not by reading a mode field that inference has not filled in yet.
+func init() {
+	register(&Rule{Name: "R-INFER-THROUGH-NAMES", Min: 1,
+		Doc: "in the mode-inference family (the SessionType method taking the definition environment and a visited set and returning a mode): an implementation that looks a name up in the environment continues by calling the same inference method on the looked-up definition (under the visited-set test); it does not answer with the Modality() of the definition's head, which is unset until inference has run for that definition and therefore depends on the order in which definitions are processed",
+		Run: runInferThroughNames})
+}
+
+func runInferThroughNames(p *Program, r *RuleResult) {
+	st := p.Named(typesPkg, "SessionType")
+	n := 0
+	for _, T := range p.Implementers(st) {
+		m := p.MethodOpt(T, "inferModality")
+		if m == nil || m.Blocks == nil {
+			continue
+		}
+		looks := false
+		for _, b := range m.Blocks {
+			for _, in := range b.Instrs {
+				if lk, ok := in.(*ssa.Lookup); ok && isNamed(lk.X.Type(), typesPkg, "LabelledTypesEnv") {
+					looks = true
+				}
+			}
+		}
+		if !looks {
+			continue
+		}
+		n++
+		recurses, readsHead := false, ""
+		for _, c := range p.callsIn(m) {
+			com := c.Common()
+			if !com.IsInvoke() {
+				continue
+			}
+			// receiver derives from the environment lookup?
+			fromEnv := false
+			var walk func(v ssa.Value, d int)
+			walk = func(v ssa.Value, d int) {
+				if d > 6 || fromEnv {
+					return
+				}
+				switch x := v.(type) {
+				case *ssa.Lookup:
+					if isNamed(x.X.Type(), typesPkg, "LabelledTypesEnv") {
+						fromEnv = true
+					}
+				case *ssa.Extract:
+					walk(x.Tuple, d+1)
+				case *ssa.UnOp:
+					walk(x.X, d+1)
+				case *ssa.Field:
+					walk(x.X, d+1)
+				case *ssa.FieldAddr:
+					walk(x.X, d+1)
+				case *ssa.Alloc:
+					for _, s := range storesTo(x) {
+						walk(s.Val, d+1)
+					}
+				}
+			}
+			walk(com.Value, 0)
+			if !fromEnv {
+				continue
+			}
+			switch com.Method.Name() {
+			case "inferModality":
+				recurses = true
+			case "Modality":
+				readsHead = p.instrPos(c)
+			}
+		}
+		switch {
+		case recurses && readsHead == "":
+			r.add(fnName(m), "infers-the-definition", Holds, p.pos(m.Pos()), "the looked-up definition is inferred recursively")
+		case readsHead != "":
+			r.add(fnName(m), "infers-the-definition", Violated, readsHead, "the mode of a referenced definition is read from its head node (Modality()) instead of being inferred: while the definitions are being completed that field is still unset for definitions not yet processed, so the result depends on declaration order and is not stable under writing out the inferred annotation")
+		default:
+			r.add(fnName(m), "infers-the-definition", Violated, p.pos(m.Pos()), "a name is looked up in the environment but its definition is not inferred")
+		}
+	}
+	r.count("inference implementations that follow names", n)
+}
